@@ -74,6 +74,15 @@ theorem C15_skel_gather_index {α : Type} (t : Table) (hwf : WF t = true) :
       ∀ j, j < xs.length → (storeLoop k (enumIdx k) 0 xs col)[j]? = xs[j]? :=
   ⟨fun f hf => (wf_facts t hwf).2.2.2.2.2.1 f hf, fun k xs col h j hj => storeLoop_delivers k xs col h j hj⟩
 
+/-- **the gather loop is lossless as a whole**: the column the loop leaves is the gathered values in member order followed by the
+    untouched rest; with one slot per member (`[None] * world_size`, the sizing fact `bufferSized` of a well-formed table) the
+    column IS the gathered list — no value dropped, duplicated, reordered, no slot left `None`. -/
+theorem C15_skel_gather_exact {α : Type} (k : Nat) (xs col : List α) :
+    (xs.length ≤ col.length → storeLoop k (enumIdx k) 0 xs col = xs ++ col.drop xs.length) ∧
+    (xs.length = col.length → storeLoop k (enumIdx k) 0 xs col = xs) := by
+  refine ⟨storeLoop_exact k xs col, fun h => ?_⟩
+  rw [storeLoop_exact k xs col (by omega), h, List.drop_length, List.append_nil]
+
 /-- non-vacuity: three gathered values land under indices 0, 1, 2 of a four-slot column; an index expression other
     than the enumeration index (here the constant 0) puts everything under index 0. -/
 example : storeLoop 0 (enumIdx 0) 0 [10, 11, 12] [0, 0, 0, 0] = [10, 11, 12, 0] ∧
